@@ -36,6 +36,7 @@ type replayResult struct {
 	Note      string                 `json:"note"`
 	Inputs    map[string]string      `json:"inputs,omitempty"`
 	Observed  map[string]interface{} `json:"observed,omitempty"`
+	Facts     []string               `json:"vocabulary_facts,omitempty"` // the parsing vocabulary evaluated at the strings of this run (what it stands for, computed by the real library functions)
 	Test      string                 `json:"test_source,omitempty"`
 	Command   string                 `json:"command,omitempty"`
 }
@@ -587,7 +588,7 @@ func (cr *checkRun) searchReplay(o *Obligation, vc *VC) *replayResult {
 		for _, p := range fn.Params {
 			ptypes = append(ptypes, p.Type())
 		}
-		br.tuples = genTuples(ptypes, fn.Pkg.Pkg, br.imports, es, ei, 200)
+		br.tuples = genTuples(ptypes, fn.Pkg.Pkg, br.imports, es, ei, 400)
 		if len(br.tuples) == 0 {
 			br.err = fmt.Errorf("no inputs generated")
 		} else {
@@ -655,7 +656,13 @@ func (cr *checkRun) searchReplay(o *Obligation, vc *VC) *replayResult {
 	defer func() { br.budget -= time.Since(t0).Seconds() }()
 	ans := multiCheckBudget(fast, blocks, 1, int(br.budget*0.7)+1)
 	mk := func(c cand, note string) *replayResult {
-		res := &replayResult{Ran: true, Confirmed: true, Note: note, Inputs: map[string]string{}, Observed: br.obs[c.idx]}
+		shown := map[string]interface{}{}
+		for k, v := range br.obs[c.idx] {
+			if k != "facts" {
+				shown[k] = v
+			}
+		}
+		res := &replayResult{Ran: true, Confirmed: true, Note: note, Inputs: map[string]string{}, Observed: shown, Facts: factsOf(br.obs[c.idx])}
 		var lits []string
 		for k, v := range br.tuples[c.idx] {
 			res.Inputs[fn.Params[k].Name()] = v.goLit
